@@ -997,13 +997,17 @@ impl LinkH { pub fn output_handle_mut(&mut self) -> (r: &mut Option<OutputHandle
 impl<T> ChanSender<T> {
     /// mpsc::Sender::try_send: queues now or fails, never waits -- it fails when the receiving end is gone (`failures`) AND when the bounded queue is momentarily full (`fulls`: the other end is alive)
     #[verifier::external_body]
-    pub fn try_send(&mut self, v: T) -> (r: Result<(), ChanSendError>)
+    pub fn try_send(&mut self, v: T) -> (r: Result<(), mpsc::error::TrySendError<T>>)
         ensures
             r is Ok ==> final(self).sent@ == old(self).sent@.push(v) && final(self).failures@ == old(self).failures@ && final(self).fulls@ == old(self).fulls@,
             r is Err ==> final(self).sent@ == old(self).sent@ && final(self).failures@ >= old(self).failures@ && final(self).fulls@ >= old(self).fulls@
                 && final(self).failures@ + final(self).fulls@ == old(self).failures@ + old(self).fulls@ + 1,
+            r is Err && r->Err_0 is Closed ==> final(self).failures@ == old(self).failures@ + 1,
+            r is Err && r->Err_0 is Full ==> final(self).fulls@ == old(self).fulls@ + 1,
     { unimplemented!() }
 }
+/// tokio::sync::mpsc::error::TrySendError: the two ways a `try_send` fails (code that tells them apart stays inside the subset; a frame that met a FULL queue is a frame NOT handed over)
+pub mod mpsc { pub mod error { pub enum TrySendError<T> { Full(T), Closed(T) } } }
 /// SenderInner / ReceiverInner reduced to what their Drop touches (R11)
 pub struct EndpointD { pub link: LinkH, pub outgoing: ChanSender<LinkFrame> }
 pub open spec fn drop_contract(o: EndpointD, n: EndpointD) -> bool {
